@@ -11,6 +11,9 @@ EXTENDS NormalForm, TLC, Json, IOUtils
 Trace == ndJsonDeserialize(IOEnv.TRACE_FILE)
 VARIABLES l, bad, stats
 vars == <<l, bad, stats>>
+\* The monitor is a deterministic chain, one state per consumed event: fingerprinting the position alone (cfg: VIEW TraceView)
+\* keeps validation linear however large `bad`, the references or the block grow.
+TraceView == l
 
 Msg(g, f) == "gen " \o ToString(g) \o ": Config()." \o f \o " is not the normal form of the configuration's meaning"
 NF == /\ l <= Len(Trace) /\ Trace[l].ev = "NF" /\ l' = l + 1
